@@ -71,6 +71,23 @@ def run(ctx):
         ctx.coverage["behaviours_" + kind] = len(behaviours)
         ctx.coverage["steps_replayed_" + kind] = res.get("steps", 0)
 
+    # ---- 3. state level: StateCommit.tla behaviours through Blockchain.Finalise on both backends
+    ctx.tlc_check("trie", "StateCommit.tla", "State_thorough.cfg" if thorough else "State_quick.cfg", timeout=3000)
+    sbeh = []
+    for i in range(4 if thorough else 1):
+        sbeh += ctx.tlc_simulate("trie", "StateMBT.tla", "State_sim.cfg", depth=32 * (60 if thorough else 40),
+                                 seed=ctx.seed * 1000 + 500 + i, timeout=900)
+    res = ctx.run_engine(binary, "TestStateReplay", {"behaviours": sbeh}, timeout=3000)
+    ctx.absorb(res, "trie", "TestStateReplay")
+    ctx.coverage["behaviours_state"] = len(sbeh)
+    ctx.coverage["blocks_finalised"] = res.get("steps", 0)
+
+    # ---- 4. temporary tries (tx / event / receipt commitments) and large batches, both backends
+    for test in ("TestTempTries", "TestTrieBulk"):
+        res = ctx.run_engine(binary, test, {}, timeout=3000)
+        ctx.absorb(res, "trie", test)
+        ctx.coverage["steps_" + test] = res.get("steps", 0)
+
     ctx.assumptions += [
         "core/crypto Pedersen/Poseidon and core/felt are trusted (known-answer tested upstream); hashes are injective terms in the specifications",
         "callers commit a trie before dropping it (deprecatedstate closers, state.Commit); Reopen is only taken from a committed trie",
@@ -81,4 +98,8 @@ def run(ctx):
         "exhaustive TLC on LegacyTrie.tla and Trie2.tla (H=3) + TLC-simulated behaviours (30 calls over 32 model keys: "
         "insert / overwrite / delete / zero-to-absent near present keys, Get, Hash, Commit, Reopen) replayed in lockstep on "
         "core/trie and core/trie2 at height 5 and at height 251 under a random bit-expansion embedding; non-trivial = "
-        "every behaviour restructures the trie (edge split, binary collapse, root replacement) and commits at least once")
+        "every behaviour restructures the trie (edge split, binary collapse, root replacement) and commits at least once; "
+        "state level: TLC-simulated StateCommit.tla update sequences (deploy / replace / nonce / storage incl. zero writes and "
+        "adjacent slots / declare / system contract) through Blockchain.Finalise on both state backends x {0.13.2, 0.14.0, "
+        "0.13.4->0.14.1} x three block splits, every block root against refimpl.GlobalRoot; directed: height-64 temporary "
+        "tries of 17+ sizes and whole-block commitments through both TempTrieBackends, bulk batches > 100 updates")
